@@ -10,6 +10,7 @@ From AV Require Import Model.D20.
 From AV Require Import Model.D05.
 From AV Require Import Model.D17.
 From AV Require Import Base.ITree Model.D00 Model.D01 Model.D04 Model.D06 Model.D07 Model.D12.
+From AV Require Import Base.ITree Model.D00 Model.D01 Model.D04 Model.D06 Model.D07 Model.D14.
 Import ListNotations.
 
 Definition dispatch (prop op : nat) (t : itree) : itree :=
@@ -27,5 +28,6 @@ Definition dispatch (prop op : nat) (t : itree) : itree :=
   | 5 => d05 op t
   | 17 => d17 op t
   | 12 => d12 op t
+  | 14 => d14 op t
   | _ => bad_input
   end.
